@@ -80,6 +80,7 @@ def gen_cases(rng, tier):
           "Log2(x)", "log2(x) * LOG2(y)", "foo(x, y)", "Foo(y, x)", "foo(x, y) - foo(y, x)", "g(f(x), f(f(y)))", "f(x + 1, y * 2, 3)",
           "sin(x) ** 2", "Sin(x) + COS(y)", "gamma(x)", "f(-x)", "f(x) ^ 2", "2 ^ f(x)", "f(a.b, #p)", "max(f(x), g(y, x))",
           "ceil(x / 2) // 2", "h()", "exp(x)", "Exp(y) * x",
+          "atan2(x, y)", "atan2(2 * x, y + 1) - atan2(y + 1, 2 * x)", "ATAN2(y, x) / 2", "multiplicity(x, y)",
           "sgn(x - 3)", "sgn(-2) * x", "SGN(x) / 2", "sgn(3)/sgn(5)*3", "sgn(y - x) * sgn(x - y)", "2 ^ sgn(x)", "sgn(0) + sgn(1/3)"]
     texts += fn
     # identifiers wrapped in underscores the way the parser's own placeholders (__lambda__, __in__) are: ordinary names, every
